@@ -167,6 +167,7 @@ impl State {
             match toks[0] {
                 "send" => {
                     let data = payload(n(toks[4]) as usize, n(toks[5]) as u32);
+                    lines.push(format!("sent {} {} {} {}", toks[2], toks[3], data.len(), uv::crc_compute(&data)));
                     ep.hc.send(data, n(toks[2]) as u8, mode_of(toks[3]));
                 }
                 "step" => {
@@ -179,6 +180,11 @@ impl State {
                     let r = panic::catch_unwind(AssertUnwindSafe(|| ep.hc.flush(&mut sink)));
                     for f in sink.frames.iter() {
                         lines.push(format!("frame {} {}", f.len(), spec::hex_of(f)));
+                        if let Some(fr::Frame::DataFrame(df)) = fr::Frame::read(f) {
+                            for d in df.datagrams.iter() {
+                                lines.push(format!("dg {} {} {} {} {} {}", d.sequence_id, d.fragment_id, d.fragment_id_last, d.channel_id, d.data.len(), uv::crc_compute(&d.data)));
+                            }
+                        }
                     }
                     ep.outbox.extend(sink.frames.into_iter());
                     if let Err(p) = r { panic::resume_unwind(p); }
